@@ -554,16 +554,6 @@ Qed.
 (* which categories these are, by computation: every category except Escape,
    GroupBegin and the four math openers; in particular both brackets, both
    parentheses, a closing brace, and the two asymmetric math closers *)
-Definition all_tc : list tc :=
-  [TEscape; TGroupBegin; TGroupEnd; TComment; TMergedSpacer; TEscapedComment;
-   TMathSwitch; TDisplayMathSwitch; TMathGroupBegin; TMathGroupEnd;
-   TDisplayMathGroupBegin; TDisplayMathGroupEnd; TLineBreak; TCommandName; TText;
-   TBracketBegin; TBracketEnd; TParenBegin; TParenEnd; TPunctuationCommandName;
-   TSizeCommand; TSpacer].
-
-Lemma all_tc_complete c : In c all_tc.
-Proof. destruct c; simpl; tauto. Qed.
-
 Lemma leaf_cat_table c :
   leaf_cat c =
   negb (tc_beq c TEscape || tc_beq c TGroupBegin ||
